@@ -678,6 +678,16 @@ class ModuleEmitter:
                 self.builder.connect(wire.name, self.sigspec(value))
 
     def emit_signal_fields(self):
+        # Field wires are named after their signal (`sig.field`, `sig[0]`). Something else in this module
+        # may have been given the same name explicitly, so make sure the names stay unique.
+        reserved = set(self.builder.contents)
+        for submodule_idx in self.module.submodules:
+            reserved.add(f"\\{self.netlist.modules[submodule_idx].name[-1]}")
+        for cell_idx in self.module.cells:
+            cell = self.netlist.cells[cell_idx]
+            if isinstance(cell, _nir.Instance):
+                reserved.add(f"\\{cell.name}")
+
         for signal, name in self.module.signal_names.items():
             fields = self.netlist.signal_fields[signal]
             for path, field in fields.items():
@@ -697,8 +707,14 @@ class ModuleEmitter:
                 if field.enum_variants is not None:
                     for var_val, var_name in field.enum_variants.items():
                         attrs["enum_value_" + to_binary(var_val, len(field.value))] = var_name
+                field_name = unique_name = "".join(name_parts)
+                index = 0
+                while f"\\{unique_name}" in reserved:
+                    unique_name = f"{field_name}${index}"
+                    index += 1
+                reserved.add(f"\\{unique_name}")
                 wire = self.builder.wire(width=len(field.value), signed=field.signed, attrs=attrs,
-                                         name="".join(name_parts), src_loc=signal.src_loc)
+                                         name=unique_name, src_loc=signal.src_loc)
                 self.builder.connect(wire.name, self.sigspec(field.value))
 
     def emit_submodules(self):
